@@ -293,6 +293,13 @@ def r024(ctx):
     alt_n = A2.spec("t.where(t.notnull(), np.nan)", {"t": tgt, **NP})
     ctx.ob("R02.4", rn.func, None, A2.eq(rn.ret, want_n) or A2.eq(rn.ret, alt_n) or A2.eq(rn.ret, A2.spec("t.fillna(np.nan)", {"t": tgt, **NP})),
            "_none_to_nan keeps every non-null entry and turns None into NaN", construct="_none_to_nan")
+    r024_extract(ctx)
+
+
+def r024_extract(ctx, rule="R02.4"):
+    """_extract_result, exhaustive over its 8 cells; shared with C01 (R01.4): by_group / overall of a bare callable metric are
+    the single column / cell selected by position, never a shape-dependent squeeze."""
+    A2 = Analysis(ctx)
     # _extract_result: callable metrics are unwrapped
     rx = A2.run(MF + "._extract_result", cls_ctx=MF)
     u = rx.params["underlying_result"]
@@ -317,5 +324,5 @@ def r024(ctx):
                 if not A2.eq(got, want):
                     bad.append(f"callable={uv} control={cv} no_control_levels={nv}: {A2.show(got, 80)}")
     ctx.exhaustive_spaces.append("_extract_result: 8 cells of (callable metric, control levels, no_control_levels)")
-    ctx.ob("R02.4", rx.func, None, not bad, "_extract_result unwraps the single column (or cell) for a bare callable and is the "
+    ctx.ob(rule, rx.func, None, not bad, "_extract_result unwraps the single column (or cell) for a bare callable and is the "
            "identity for dict metrics" if not bad else "; ".join(bad[:3]), construct="_extract_result")
